@@ -170,7 +170,14 @@ def run_c14(tier, seed):
             ro_tree, fixed = _envelope_plans()[hseed]
             ro_text = TJ.to_text(ro_tree)
             n = len(fixed)
-        ro = impl.load(ro_text)
+        try:
+            ro = impl.load(ro_text)
+            assert type(ro).__name__ == 'RunningOrder'
+        except Exception as e:  # noqa: BLE001
+            # a well-formed document with a roCreate that the library does not read as a RunningOrder
+            oc.disagreements.append({'kind': 'load', 'what': 'the running-order document is not read as a RunningOrder (the model classifies it as one)',
+                                     'impl': impl.err_name(e), 'text': ro_text[:1500]})
+            continue
         original = {'message_id': ro.message_id, 'ro_id': ro.ro_id}
         delete_at = hrng.randrange(0, n) if (kind == 'random' and hrng.random() < 0.4) else None
         docs = [ro_text]
